@@ -53,6 +53,19 @@ def discover(chk):
     return cls, active, released, roles
 
 
+def helper_inline(cls, roles):
+    keep = {f.name for f in roles.values()}
+
+    def flt(f, ct):
+        return f.cls is cls and f.name not in keep and not f.is_async and prog_pick_getter(f) is None
+
+    return flt
+
+
+def prog_pick_getter(f):
+    return f if any((n or "").split(".")[-1] == "property" for n in f.decorator_names()) else None
+
+
 def ownership(chk, cls, active, released, roles):
     prog = chk.program
     rule = "O15.1"
@@ -121,7 +134,7 @@ def release_atomic(chk, cls, active, released, roles):
     rule = "O15.2"
     fi = roles["release"]
     child = ("sym", fi.params()[0])
-    outs = Interp(prog, fi).run()
+    outs = Interp(prog, fi, inline=helper_inline(cls, roles)).run()
     chk.count(len(outs))
     ok = True
     for o in outs:
@@ -153,7 +166,7 @@ def reap(chk, cls, active, released, roles):
     reap_fi, rel_fi = roles["reap"], roles["release"]
     for step in ("grow", "shrink"):
         fi = roles[step]
-        it = Interp(prog, fi, unroll=1)
+        it = Interp(prog, fi, unroll=1, inline=helper_inline(cls, roles))
         outs = it.run()
         chk.count(len(outs))
         ok = True
@@ -211,7 +224,7 @@ def guards(chk, cls, active, released, roles):
     if len(loops) != 1:
         chk.undecided(rule, fi.qual, "grow step is not a single while loop", node=fi.node)
     else:
-        it = Interp(prog, fi, unroll=1, assert_raises=False)
+        it = Interp(prog, fi, unroll=1, assert_raises=False, inline=helper_inline(cls, roles))
         outs = it.run()
         chk.count(len(outs))
         ok = True
@@ -271,7 +284,7 @@ def guards(chk, cls, active, released, roles):
     if len(loops) != 1:
         chk.undecided(rule, fi.qual, "shrink step is not a single for loop", node=fi.node)
         return
-    it = Interp(prog, fi, unroll=1)
+    it = Interp(prog, fi, unroll=1, inline=helper_inline(cls, roles))
     outs = it.run()
     chk.count(len(outs))
     ok = True
